@@ -12,6 +12,8 @@
 //!   c16 ctx long <outdir> <len std> <len no-std> <all|ids>           long histories: one thread compiles LongInput(s, 1..len)
 //!   c16 ctx path <outdir> <all|ids>                                  disk projects x Spellings, one process (cwd, argument) each
 //!   c16 ctx seed <outdir> <nseeds> <count|all|ids:..>                SeedCase(i) compiled nseeds times without std
+//!   c16 ctx line <outdir> <nseeds> <count|all|ids:..>                LineCase(i) (SyltDetLayout) compiled nseeds times without std
+//!   c16 ctx pair <outdir> <count|all|ids:..>                         PairScenario(t, s) for all shapes, one process each (+ xprogs.ndjson)
 //!        each writes <kind>.ndjson (trace), <kind>-groups.ndjson, <kind>-full.ndjson, progs.ndjson into <outdir>
 //!   c16 seqworker <job.json> <out.ndjson> | diskworker <arg> <project dir> <ref digest>     children of `ctx`
 //!   c16 showctx prog|seed|disk <id> | sizes                           print a case of the context universes / all sizes
@@ -749,17 +751,20 @@ struct Obs {
     d_locs: String,
     /// the sorted multiset of complete errors (equal for two runs that differ only in order)
     d_set: String,
+    /// number of Lua bytes (0 unless accepted)
+    #[serde(default)]
+    size: usize,
 }
 
 fn observe(r: &CompileResult) -> Obs {
     match r {
         CompileResult::Ok { lua } => {
             let d = hex(fnv(lua));
-            Obs { class: "ok".into(), digest: d.clone(), nerr: 0, d_first: d.clone(), d_locs: d.clone(), d_set: d }
+            Obs { class: "ok".into(), digest: d.clone(), nerr: 0, d_first: d.clone(), d_locs: d.clone(), d_set: d, size: lua.len() }
         }
         CompileResult::Panic { message, bytes_written } => {
             let d = hex(fnv(&format!("panic|{}|{}", message, bytes_written)));
-            Obs { class: "panic".into(), digest: d.clone(), nerr: 0, d_first: d.clone(), d_locs: d.clone(), d_set: d }
+            Obs { class: "panic".into(), digest: d.clone(), nerr: 0, d_first: d.clone(), d_locs: d.clone(), d_set: d, size: 0 }
         }
         CompileResult::Err { errors, bytes_written } => {
             let loc = |e: &vharness::ErrInfo| {
@@ -776,6 +781,7 @@ fn observe(r: &CompileResult) -> Obs {
                 d_first: hex(fnv(&errors.first().map(loc).unwrap_or_default())),
                 d_locs: hex(fnv(&errors.iter().map(loc).collect::<Vec<_>>().join("\u{2}"))),
                 d_set: hex(fnv(&format!("{}#{}", sorted.join("\u{2}"), bytes_written))),
+                size: 0,
             }
         }
     }
@@ -1579,6 +1585,12 @@ struct SeqJob {
     progs: Vec<usize>,
     /// digest of the fresh result of every program (by id), "" when not known yet
     refs: BTreeMap<String, String>,
+    /// "prog" (SyltDetContext!Prog) | "x" (SyltDetLayout!XProg)
+    #[serde(default)]
+    lib: String,
+    /// "writer" (compile_with_reader_to_writer) | "ofile" (run_file_with_reader with -o, one path for the whole process)
+    #[serde(default)]
+    cfg: String,
 }
 
 /// `c16 seqworker <job.json> <out.ndjson>`: ONE thread of this process compiles the programs one after the other.
@@ -1587,9 +1599,13 @@ fn seqworker(job_path: &str, out_path: &str) {
         &std::fs::read_to_string(job_path).unwrap_or_else(|e| tool_error(&format!("{}: {}", job_path, e))),
     )
     .unwrap_or_else(|e| tool_error(&format!("{}: {}", job_path, e)));
+    let out_lua = std::path::PathBuf::from(format!("{}.out.lua", job_path));
+    let _ = std::fs::remove_file(&out_lua);
+    let out_lua2 = out_lua.clone();
     let outs = std::thread::Builder::new()
         .stack_size(512 << 20)
         .spawn(move || {
+            let out_lua = out_lua2;
             let mut rendered: BTreeMap<usize, (Project, bool)> = BTreeMap::new();
             let mut shipped: BTreeMap<usize, usize> = BTreeMap::new();
             let mut outs = Vec::with_capacity(job.progs.len());
@@ -1597,14 +1613,24 @@ fn seqworker(job_path: &str, out_path: &str) {
                 let (project, nostd) = rendered
                     .entry(id)
                     .or_insert_with(|| {
-                        let p = prog(id);
-                        (render_prog(&p), p.nostd)
+                        if job.lib == "x" {
+                            let p = xprog(id);
+                            (render_xprog(&p), p.std == 0)
+                        } else {
+                            let p = prog(id);
+                            (render_prog(&p), p.nostd)
+                        }
                     })
                     .clone();
-                let (r, _) = vharness::project::compile_opts(
-                    &project,
-                    &vharness::project::CompileOpts { no_std: nostd, ..Default::default() },
-                );
+                let r = if job.cfg == "ofile" {
+                    compile_ofile(&project, nostd, &out_lua)
+                } else {
+                    vharness::project::compile_opts(
+                        &project,
+                        &vharness::project::CompileOpts { no_std: nostd, ..Default::default() },
+                    )
+                    .0
+                };
                 let obs = observe(&r);
                 let reference = job.refs.get(&id.to_string()).cloned().unwrap_or_default();
                 // full results: everything when no reference is known, else the first two that differ from it
@@ -1622,14 +1648,19 @@ fn seqworker(job_path: &str, out_path: &str) {
         .unwrap()
         .join()
         .unwrap_or_else(|_| tool_error("sequence worker thread died"));
+    let _ = std::fs::remove_file(&out_lua);
     write_ndjson(Path::new(out_path), &outs);
 }
 
 fn run_seq(scratch: &Path, tag: &str, progs: &[usize], refs: &BTreeMap<String, String>) -> Vec<StepOut> {
+    run_seq_in(scratch, tag, progs, refs, "prog", "writer")
+}
+
+fn run_seq_in(scratch: &Path, tag: &str, progs: &[usize], refs: &BTreeMap<String, String>, lib: &str, cfg: &str) -> Vec<StepOut> {
     let exe = std::env::current_exe().unwrap_or_else(|e| tool_error(&format!("current_exe: {}", e)));
     let job = scratch.join(format!("{}.job.json", tag));
     let out = scratch.join(format!("{}.out.ndjson", tag));
-    std::fs::write(&job, serde_json::to_string(&SeqJob { progs: progs.to_vec(), refs: refs.clone() }).unwrap())
+    std::fs::write(&job, serde_json::to_string(&SeqJob { progs: progs.to_vec(), refs: refs.clone(), lib: lib.into(), cfg: cfg.into() }).unwrap())
         .unwrap_or_else(|e| tool_error(&format!("{}: {}", job.display(), e)));
     let st = std::process::Command::new(exe)
         .arg("seqworker")
@@ -1837,6 +1868,448 @@ fn render_seed(c: &SeedCase) -> Project {
     multi(files)
 }
 
+// ---- the layout of a declaration (SyltDetLayout!LineCase) -----------------------------------------------------
+
+const LINE_FAMS: &[&str] = &[
+    "blob-types",
+    "enum-types",
+    "blob-generics",
+    "enum-generics",
+    "blob-mixed",
+    "enum-mixed",
+    "blob-dup",
+    "enum-dup",
+    "lit-types",
+    "lit-missing",
+    "case-missing",
+    "blob-ok",
+    "enum-ok",
+];
+const LNK: &[(usize, usize)] = &[(2, 2), (3, 2), (3, 3), (4, 2), (4, 3), (5, 2), (5, 3), (6, 2), (6, 3)];
+const N_LAYOUTS: usize = 6;
+
+fn n_line_cases() -> usize {
+    LINE_FAMS.len() * LNK.len() * N_LAYOUTS * 4 * 2
+}
+
+#[derive(Clone, Debug, Serialize, Deserialize)]
+struct LineCase {
+    idx: usize,
+    fam: String,
+    n: usize,
+    k: usize,
+    layout: usize,
+    ord: usize,
+    pos: usize,
+    errpos: Vec<usize>,
+    perm: Vec<usize>,
+    /// lines[q] = line (header line = 0) of the q-th written member
+    lines: Vec<usize>,
+    /// erroneous members that share their line with another erroneous member
+    same: usize,
+    expect: String,
+}
+
+/// SyltDetLayout!LineOf
+fn line_of(n: usize, layout: usize) -> Vec<usize> {
+    (1..=n)
+        .map(|q| match layout {
+            0 => 0,
+            1 => 1,
+            2 => 1 + (q - 1) / 2,
+            3 => {
+                if q == 1 {
+                    1
+                } else {
+                    2
+                }
+            }
+            4 => {
+                if q == 1 {
+                    0
+                } else {
+                    1
+                }
+            }
+            _ => q,
+        })
+        .collect()
+}
+
+fn line_case(i: usize) -> LineCase {
+    if i < 1 || i > n_line_cases() {
+        tool_error("line case index out of range");
+    }
+    let mut x = i - 1;
+    let fam = LINE_FAMS[x % LINE_FAMS.len()];
+    x /= LINE_FAMS.len();
+    let (n, k) = LNK[x % LNK.len()];
+    x /= LNK.len();
+    let layout = x % N_LAYOUTS;
+    x /= N_LAYOUTS;
+    let ord = x % 4;
+    x /= 4;
+    let pos = x % 2;
+    let mut errpos: Vec<usize> = (0..k).map(|j| (pos + j * (n / k)) % n).collect();
+    errpos.sort();
+    let p = perm(n, ord);
+    let lines = line_of(n, layout);
+    let line_of_member = |e: usize| lines[p.iter().position(|&j| j == e).unwrap()];
+    let same = errpos
+        .iter()
+        .filter(|&&e| errpos.iter().any(|&e2| e2 != e && line_of_member(e2) == line_of_member(e)))
+        .count();
+    LineCase {
+        idx: i,
+        fam: fam.into(),
+        n,
+        k,
+        layout,
+        ord,
+        pos,
+        errpos,
+        perm: p,
+        lines,
+        same,
+        expect: if fam.ends_with("-ok") { "ok" } else { "err" }.into(),
+    }
+}
+
+/// `header m1, m2,\n    m3 closer`: the members distributed over lines as `lines` says (only the first
+/// members.len() entries are used); `own_closer`: the closer stands on a line of its own.
+fn lay_out(indent: &str, header: &str, members: &[String], closer: &str, lines: &[usize], own_closer: bool) -> String {
+    let mut s = format!("{}{}", indent, header);
+    let mut cur = 0usize;
+    let mut first_on_line = true;
+    for (q, m) in members.iter().enumerate() {
+        if lines[q] != cur {
+            if q > 0 {
+                s.push(',');
+            }
+            s.push('\n');
+            s.push_str(indent);
+            s.push_str("    ");
+            s.push_str(m);
+            cur = lines[q];
+        } else {
+            s.push_str(if first_on_line { " " } else { ", " });
+            s.push_str(m);
+        }
+        first_on_line = false;
+    }
+    if own_closer {
+        s.push('\n');
+        s.push_str(indent);
+        s.push_str(closer);
+    } else {
+        s.push(' ');
+        s.push_str(closer);
+    }
+    s.push('\n');
+    s
+}
+
+fn render_line(c: &LineCase) -> Project {
+    let own_closer = c.layout != 0 && c.layout != 4;
+    let rank = |j: usize| c.errpos.iter().position(|&e| e == j);
+    let bad = |j: usize| rank(j).is_some();
+    let is_enum = c.fam.starts_with("enum-") || c.fam == "case-missing";
+    // the type text of logical member j of the DECLARATION
+    let decl_ty = |j: usize| -> String {
+        let plain = if is_enum {
+            if j % 2 == 0 {
+                ty(j / 2).to_string()
+            } else {
+                String::new()
+            }
+        } else {
+            ty(j).to_string()
+        };
+        match (c.fam.as_str(), rank(j)) {
+            ("blob-types", Some(_)) | ("enum-types", Some(_)) => format!("Nope{}", j),
+            ("blob-generics", Some(_)) | ("enum-generics", Some(_)) => format!("*u{}", j),
+            ("blob-mixed", Some(r)) | ("enum-mixed", Some(r)) => {
+                if r % 2 == 0 {
+                    format!("Nope{}", j)
+                } else {
+                    format!("*u{}", j)
+                }
+            }
+            ("blob-ok", Some(0)) | ("enum-ok", Some(0)) => "*t".to_string(),
+            _ => plain,
+        }
+    };
+    let decl_name = |j: usize| -> &'static str {
+        let j = if c.fam.ends_with("-dup") && bad(j) { c.errpos[0] } else { j };
+        if is_enum {
+            VNAMES[j]
+        } else {
+            NAMES[j]
+        }
+    };
+    let members: Vec<String> = c
+        .perm
+        .iter()
+        .map(|&j| {
+            let t = decl_ty(j);
+            if is_enum {
+                format!("{} {}", decl_name(j), t).trim_end().to_string()
+            } else {
+                format!("{}: {}", decl_name(j), t)
+            }
+        })
+        .collect();
+    let generics = if c.fam.ends_with("-ok") { "(*t)" } else { "" };
+    let mut s = Src::new();
+    if is_enum {
+        s.s.push_str(&lay_out("", &format!("Choice :: enum{}", generics), &members, "end", &c.lines, own_closer));
+    } else {
+        s.s.push_str(&lay_out("", &format!("Rec :: blob{} {{", generics), &members, "}", &c.lines, own_closer));
+    }
+    let lit_order = perm(c.n, (c.ord + 1) % 4);
+    match c.fam.as_str() {
+        "lit-types" | "lit-missing" | "blob-ok" => {
+            let fields: Vec<String> = lit_order
+                .iter()
+                .filter(|&&j| !(c.fam == "lit-missing" && bad(j)))
+                .map(|&j| format!("{}: {}", NAMES[j], if c.fam == "lit-types" && bad(j) { wrong(j) } else { val(j) }))
+                .collect();
+            s.l("start :: fn do");
+            s.s.push_str(&lay_out("    ", "r := Rec {", &fields, "}", &c.lines, own_closer));
+            if c.fam == "blob-ok" {
+                for &j in c.perm.iter() {
+                    s.l(&format!("    v{} := r.{}", j, NAMES[j]));
+                }
+            } else {
+                s.l("    q := 1");
+            }
+            s.l("end");
+        }
+        "case-missing" | "enum-ok" => {
+            s.l("describe :: fn c: Choice -> int do");
+            s.l("    ret case c do");
+            for &j in lit_order.iter() {
+                if c.fam == "case-missing" && bad(j) {
+                    continue;
+                }
+                if j % 2 == 0 || (c.fam == "enum-ok" && rank(j) == Some(0)) {
+                    s.l(&format!("        {} x -> {} end", VNAMES[j], j + 10));
+                } else {
+                    s.l(&format!("        {} -> {} end", VNAMES[j], j + 10));
+                }
+            }
+            s.l("    end");
+            s.l("end");
+            s.l("start :: fn do");
+            for &j in c.perm.iter() {
+                if c.fam == "case-missing" && bad(j) {
+                    continue;
+                }
+                if c.fam == "enum-ok" && rank(j) == Some(0) {
+                    s.l(&format!("    q{} := describe(Choice.{} 7)", j, VNAMES[j]));
+                } else if j % 2 == 0 {
+                    s.l(&format!("    q{} := describe(Choice.{} {})", j, VNAMES[j], val(j / 2)));
+                } else {
+                    s.l(&format!("    q{} := describe(Choice.{})", j, VNAMES[j]));
+                }
+            }
+            s.l("end");
+        }
+        _ => {
+            s.l("start :: fn do");
+            s.l("    q := 1");
+            s.l("end");
+        }
+    }
+    single(s.s.clone())
+}
+
+// ---- programs that share names (SyltDetLayout!XProg, PairScenario) --------------------------------------------
+
+const X_RADIX: &[usize] = &[5, 2, 3, 3, 2, 2]; // defs, stem, kind, site, locl, std
+/// (shorter neighbour S, longer neighbour L, the used name M, a local name that beats every global)
+const STEMS: &[(&str, &str, &str, &str)] = &[("count", "counter", "countr", "contr"), ("total", "totals", "totl", "tot")];
+/// (axis, step) - SyltDetLayout!XNbrAxes (1-based axes)
+const X_NBR_AXES: &[(usize, usize)] =
+    &[(1, 1), (1, 2), (1, 3), (1, 4), (2, 1), (3, 1), (3, 2), (4, 1), (4, 2), (5, 1), (6, 1)];
+
+fn n_x() -> usize {
+    X_RADIX.iter().product()
+}
+fn x_weight(a: usize) -> usize {
+    X_RADIX[..a - 1].iter().product()
+}
+fn x_digit(i: usize, a: usize) -> usize {
+    ((i - 1) / x_weight(a)) % X_RADIX[a - 1]
+}
+
+#[derive(Clone, Debug, Serialize, Deserialize)]
+struct XProg {
+    id: usize,
+    defs: usize,
+    stem: usize,
+    kind: usize,
+    site: usize,
+    locl: usize,
+    std: usize,
+    expect: String,
+}
+
+fn xprog(i: usize) -> XProg {
+    if i < 1 || i > n_x() {
+        tool_error(&format!("program id {} outside the name-sharing library", i));
+    }
+    XProg {
+        id: i,
+        defs: x_digit(i, 1),
+        stem: x_digit(i, 2),
+        kind: x_digit(i, 3),
+        site: x_digit(i, 4),
+        locl: x_digit(i, 5),
+        std: x_digit(i, 6),
+        expect: if x_digit(i, 1) == 4 { "ok" } else { "err" }.into(),
+    }
+}
+
+fn x_nbr_at(t: usize, k: usize) -> usize {
+    let (a, d) = X_NBR_AXES[k - 1];
+    (t - x_digit(t, a) * x_weight(a)) + ((x_digit(t, a) + d) % X_RADIX[a - 1]) * x_weight(a)
+}
+fn x_far(t: usize) -> usize {
+    ((t - 1 + 131) % n_x()) + 1
+}
+fn n_pair_shapes() -> usize {
+    3 + X_NBR_AXES.len() + 4 + 2
+}
+
+/// SyltDetLayout!PairScenario and PairCfg
+fn pair_scenario(t: usize, s: usize) -> (Vec<usize>, &'static str) {
+    let nn = X_NBR_AXES.len();
+    let target_cfg = if xprog(t).expect == "ok" { "ofile" } else { "writer" };
+    if s == 1 {
+        (vec![t], "writer")
+    } else if s == 2 {
+        (vec![t], "ofile")
+    } else if s == 3 {
+        (vec![t, t], "ofile")
+    } else if s <= 3 + nn {
+        (vec![x_nbr_at(t, s - 3), t], target_cfg)
+    } else if s <= 3 + nn + 4 {
+        (vec![x_nbr_at(t, s - 3 - nn), x_nbr_at(t, ((s - 3 - nn) % 4) + 1), t], target_cfg)
+    } else if s == 3 + nn + 5 {
+        (vec![x_far(t), t], target_cfg)
+    } else {
+        (vec![x_far(t), t, x_nbr_at(t, 1), t], target_cfg)
+    }
+}
+
+fn render_xprog(p: &XProg) -> Project {
+    let cap = |w: &str| -> String {
+        if p.kind == 2 {
+            let mut c = w.chars();
+            match c.next() {
+                Some(f) => f.to_uppercase().collect::<String>() + c.as_str(),
+                None => String::new(),
+            }
+        } else {
+            w.to_string()
+        }
+    };
+    let (s_name, l_name, m_name, loc_name) = STEMS[p.stem];
+    let (s_name, l_name, m_name, loc_name) = (cap(s_name), cap(l_name), cap(m_name), cap(loc_name));
+    let def = |name: &str, v: usize| -> String {
+        match p.kind {
+            0 => format!("{} :: {}\n", name, v),
+            1 => format!("{} :: fn -> int do\n    ret {}\nend\n", name, v),
+            _ => format!("{} :: blob {{ v: int }}\n", name),
+        }
+    };
+    let mut defs = String::new();
+    match p.defs {
+        0 => defs.push_str(&def(&l_name, 2)),
+        1 => defs.push_str(&def(&s_name, 1)),
+        2 => {
+            defs.push_str(&def(&l_name, 2));
+            defs.push_str(&def(&s_name, 1));
+        }
+        3 => {}
+        _ => defs.push_str(&def(&m_name, 3)),
+    }
+    let q = if p.site == 2 { "h1." } else { "" };
+    let mut work = Src::new();
+    work.l("work :: fn -> int do");
+    if p.locl == 1 {
+        work.l(&format!("    {} := 5", loc_name));
+    }
+    match p.kind {
+        0 => {
+            work.l(&format!("    x := {}{} + 1", q, m_name));
+        }
+        1 => {
+            work.l(&format!("    x := {}{}() + 1", q, m_name));
+        }
+        _ => {
+            work.l(&format!("    y := {}{} {{ v: 1 }}", q, m_name));
+            work.l("    x := y.v");
+        }
+    }
+    work.l("    ret x");
+    work.l("end");
+    let mut files = Vec::new();
+    let mut main = Src::new();
+    if p.site >= 1 {
+        main.l("use h1");
+        let mut h = Src::new();
+        h.s.push_str(&defs);
+        h.l("one1 :: fn -> int do\n    ret 1\nend");
+        if p.site == 1 {
+            h.s.push_str(&work.s);
+        }
+        files.push(("h1.sy".to_string(), h.s.clone()));
+    } else {
+        main.s.push_str(&defs);
+    }
+    if p.site != 1 {
+        main.s.push_str(&work.s);
+    }
+    main.l("start :: fn do");
+    main.l(if p.site == 1 { "    t := h1.work()" } else { "    t := work()" });
+    if p.std == 1 {
+        main.l("    print(t)");
+    }
+    main.l("end");
+    files.push(("main.sy".to_string(), main.s.clone()));
+    multi(files)
+}
+
+/// Compile through `sylt::run_file_with_reader` with `-o <out>` (what `sylt FILE -o OUT` does); the Lua is what the
+/// file holds afterwards. The file is NOT removed first: every compilation of a process writes to the same path.
+fn compile_ofile(p: &Project, no_std: bool, out: &Path) -> CompileResult {
+    vharness::project::quiet_panics();
+    let main = Project::abs(&p.main);
+    let args = sylt::Args {
+        args: vec![main.to_string_lossy().to_string()],
+        no_std,
+        output: Some(out.to_path_buf()),
+        ..Default::default()
+    };
+    let reader = |path: &Path| -> Result<String, sylt_common::error::Error> {
+        match p.files.get(&Project::rel(path)) {
+            Some(s) => Ok(s.clone()),
+            None => Err(sylt_common::error::Error::FileNotFound(path.to_path_buf())),
+        }
+    };
+    let res = std::panic::catch_unwind(std::panic::AssertUnwindSafe(|| sylt::run_file_with_reader(&args, reader)));
+    match res {
+        Ok(Ok(())) => match std::fs::read(out) {
+            Ok(bytes) => CompileResult::Ok { lua: String::from_utf8_lossy(&bytes).to_string() },
+            Err(e) => tool_error(&format!("{}: {}", out.display(), e)),
+        },
+        Ok(Err(errs)) => CompileResult::Err { errors: errs.iter().map(vharness::project::err_info).collect(), bytes_written: 0 },
+        Err(_) => CompileResult::Panic { message: "panic while compiling with -o".into(), bytes_written: 0 },
+    }
+}
+
 // ---- the context recorder --------------------------------------------------------------------------------------
 
 struct CtxOut {
@@ -1852,6 +2325,7 @@ fn obs_into(rec: &mut Value, o: &Obs) {
     rec["d_first"] = json!(o.d_first);
     rec["d_locs"] = json!(o.d_locs);
     rec["d_set"] = json!(o.d_set);
+    rec["size"] = json!(o.size);
 }
 
 fn parse_ids(arg: &str, max: usize) -> Vec<usize> {
@@ -2060,29 +2534,64 @@ fn ctx_path(scratch: &Path, projects: &[usize]) -> CtxOut {
 
 /// kind "seed": every case compiled `nseeds` times without std, each time with hash keys no run had before
 fn ctx_seed(nseeds: usize, cases: &[usize]) -> CtxOut {
-    let projects: Vec<Project> = cases.iter().map(|&i| render_seed(&seed_case(i))).collect();
+    let items: Vec<(Project, Value, String)> = cases
+        .iter()
+        .map(|&i| {
+            let c = seed_case(i);
+            (render_seed(&c), serde_json::to_value(&c).unwrap(), format!("s:{}", i))
+        })
+        .collect();
+    ctx_repeat(nseeds, cases, items)
+}
+
+/// kind "line": every LineCase compiled `nseeds` times without std, fresh hash keys every time
+fn ctx_line(nseeds: usize, cases: &[usize]) -> CtxOut {
+    let items: Vec<(Project, Value, String)> = cases
+        .iter()
+        .map(|&i| {
+            let c = line_case(i);
+            (render_line(&c), serde_json::to_value(&c).unwrap(), format!("y:{}", i))
+        })
+        .collect();
+    ctx_repeat(nseeds, cases, items)
+}
+
+/// one group per case: (project, case fields, spec) compiled `nseeds` times without std
+fn ctx_repeat(nseeds: usize, cases: &[usize], items: Vec<(Project, Value, String)>) -> CtxOut {
+    let projects: Vec<Project> = items.iter().map(|x| x.0.clone()).collect();
     let mut rng = rand::rngs::StdRng::seed_from_u64(seed() ^ 0x5EED);
+    let opts = vharness::project::CompileOpts { no_std: true, ..Default::default() };
+    // run 1 of every case first: its digest is the reference that decides which later results are kept whole
+    // (keeping all of them costs gigabytes in the thorough tier)
+    let idx: Vec<usize> = (0..cases.len()).collect();
+    let firsts = vharness::pool::par_map(&idx, |_, &q| {
+        let (r, _) = vharness::project::compile_opts(&projects[q], &opts);
+        (observe(&r), r)
+    });
     let mut schedule: Vec<(usize, usize)> = Vec::new();
-    for run in 1..=nseeds {
+    for run in 2..=nseeds {
         let mut order: Vec<usize> = (0..cases.len()).collect();
         order.shuffle(&mut rng);
         schedule.extend(order.into_iter().map(|q| (q, run)));
     }
-    let opts = vharness::project::CompileOpts { no_std: true, ..Default::default() };
     let results = vharness::pool::par_map(&schedule, |_, &(q, run)| {
         let (r, _) = vharness::project::compile_opts(&projects[q], &opts);
         let o = observe(&r);
-        // keep the full result of run 1 and of anything that is not an ordinary digest of it (decided below)
-        (q, run, o, r)
+        let keep = if o.digest != firsts[q].0.digest { Some(r) } else { None };
+        (q, run, o, keep)
     });
     let mut obs: Vec<Vec<Option<Obs>>> = (0..cases.len()).map(|_| (0..nseeds).map(|_| None).collect()).collect();
     let mut first: Vec<Option<CompileResult>> = (0..cases.len()).map(|_| None).collect();
     let mut other: Vec<Vec<(usize, CompileResult)>> = (0..cases.len()).map(|_| Vec::new()).collect();
-    for (q, run, o, r) in results {
-        if run == 1 {
-            first[q] = Some(r);
-        } else {
-            other[q].push((run, r));
+    for (q, (o, r)) in firsts.into_iter().enumerate() {
+        first[q] = Some(r);
+        obs[q][0] = Some(o);
+    }
+    for (q, run, o, keep) in results {
+        if let Some(r) = keep {
+            if other[q].len() < 4 {
+                other[q].push((run, r));
+            }
         }
         obs[q][run - 1] = Some(o);
     }
@@ -2104,8 +2613,82 @@ fn ctx_seed(nseeds: usize, cases: &[usize]) -> CtxOut {
         if let Some((run, r)) = other[q].iter().find(|(run, _)| obs[q][run - 1].as_ref().unwrap().digest != d1) {
             out.fulls.push(json!({"g": g, "j": run, "input": i, "full": full_result(r)}));
         }
-        out.groups.push(json!({"g": g, "first": first_idx, "n": nseeds, "key": i, "case": seed_case(i),
-                               "files": projects[q].files, "digest_counts": counts, "spec": format!("s:{}", i)}));
+        out.groups.push(json!({"g": g, "first": first_idx, "n": nseeds, "key": i, "case": items[q].1,
+                               "files": projects[q].files, "digest_counts": counts, "spec": items[q].2}));
+    }
+    out
+}
+
+/// kind "pair": for every target t of the name-sharing library, the processes PairScenario(t, s) for ALL shapes s
+fn ctx_pair(scratch: &Path, targets: &[usize]) -> CtxOut {
+    let none = BTreeMap::new();
+    let shapes = n_pair_shapes();
+    // phase 1: every program that occurs in a scenario fresh, into a writer (for the targets these ARE the shape-1 scenarios)
+    let mut occurring: std::collections::BTreeSet<usize> = std::collections::BTreeSet::new();
+    for &t in targets {
+        for s in 1..=shapes {
+            occurring.extend(pair_scenario(t, s).0);
+        }
+    }
+    let all_ids: Vec<usize> = occurring.into_iter().collect();
+    let fresh_outs = vharness::pool::par_map(&all_ids, |_, &id| {
+        let mut o = run_seq_in(scratch, &format!("xfresh-{}", id), &[id], &none, "x", "writer");
+        (id, o.remove(0))
+    });
+    let mut refs: BTreeMap<String, String> = BTreeMap::new();
+    let mut fresh: BTreeMap<usize, StepOut> = BTreeMap::new();
+    for (id, o) in fresh_outs {
+        refs.insert(id.to_string(), o.obs.digest.clone());
+        fresh.insert(id, o);
+    }
+    // phase 2: all other scenarios, one process each
+    let mut jobs: Vec<(usize, usize)> = Vec::new();
+    for &t in targets {
+        for s in 2..=shapes {
+            jobs.push((t, s));
+        }
+    }
+    let results = vharness::pool::par_map(&jobs, |_, &(t, s)| {
+        let (h, cfg) = pair_scenario(t, s);
+        (t, s, run_seq_in(scratch, &format!("x-{}-{}", t, s), &h, &refs, "x", cfg))
+    });
+    let mut by_ts: BTreeMap<(usize, usize), Vec<StepOut>> = BTreeMap::new();
+    for (t, s, o) in results {
+        by_ts.insert((t, s), o);
+    }
+    let mut out = CtxOut { trace: Vec::new(), groups: Vec::new(), fulls: Vec::new() };
+    let mut need_ref: std::collections::BTreeSet<usize> = targets.iter().take(3).cloned().collect();
+    for (gi, &t) in targets.iter().enumerate() {
+        let g = gi + 1;
+        let first = out.trace.len() + 1;
+        let mut j = 0;
+        for s in 1..=shapes {
+            let (h, cfg) = pair_scenario(t, s);
+            let fresh_step;
+            let steps: Vec<&StepOut> = if s == 1 {
+                fresh_step = vec![fresh.get(&t).unwrap()];
+                fresh_step
+            } else {
+                by_ts.get(&(t, s)).unwrap().iter().collect()
+            };
+            for (q, o) in steps.iter().enumerate() {
+                j += 1;
+                let mut rec = json!({"g": g, "j": j, "scen": s, "step": q + 1, "prog": h[q], "cfg": cfg,
+                                     "nostd": xprog(h[q]).std == 0, "before": h[..q].to_vec()});
+                obs_into(&mut rec, &o.obs);
+                out.trace.push(rec);
+                if s != 1 {
+                    if let Some(f) = &o.full {
+                        out.fulls.push(json!({"g": g, "j": j, "input": h[q], "full": f}));
+                        need_ref.insert(h[q]);
+                    }
+                }
+            }
+        }
+        out.groups.push(json!({"g": g, "first": first, "n": j, "key": t, "case": xprog(t), "spec": format!("x:{}", t)}));
+    }
+    for id in need_ref {
+        out.fulls.push(json!({"reference": true, "input": id, "full": fresh.get(&id).unwrap().full}));
     }
     out
 }
@@ -2113,7 +2696,8 @@ fn ctx_seed(nseeds: usize, cases: &[usize]) -> CtxOut {
 fn ctx_main(args: &[String]) {
     // c16 ctx <kind> <outdir> <params..>
     let usage = "usage: c16 ctx hist <outdir> <all|required> <targets: all|ids> | ctx long <outdir> <len std> <len no-std> <all|ids> | \
-                 ctx path <outdir> <all|ids> | ctx seed <outdir> <nseeds> <count|all|ids:..>";
+                 ctx path <outdir> <all|ids> | ctx seed <outdir> <nseeds> <count|all|ids:..> | \
+                 ctx line <outdir> <nseeds> <count|all|ids:..> | ctx pair <outdir> <count|all|ids:..>";
     if args.len() < 2 {
         tool_error(usage);
     }
@@ -2132,6 +2716,50 @@ fn ctx_main(args: &[String]) {
             ctx_long(&scratch, a, b, &parse_ids(&args[4], N_LONG))
         }
         ("path", 3) => ctx_path(&scratch, &parse_ids(&args[2], N_DISK)),
+        ("pair", 3) => {
+            let total = n_x();
+            let targets: Vec<usize> = if let Some(ids) = args[2].strip_prefix("ids:") {
+                parse_ids(ids, total)
+            } else if args[2] == "all" {
+                (1..=total).collect()
+            } else {
+                // stratified: the same number of targets for every value of the axis `defs`
+                let count: usize = args[2].parse().unwrap_or_else(|_| tool_error(usage));
+                let per = (count + X_RADIX[0] - 1) / X_RADIX[0];
+                let mut rng = rand::rngs::StdRng::seed_from_u64(seed() ^ 0x9A12);
+                let mut idx = Vec::new();
+                for d in 0..X_RADIX[0] {
+                    let mut rest: Vec<usize> = (0..total / X_RADIX[0]).collect();
+                    rest.shuffle(&mut rng);
+                    idx.extend(rest.into_iter().take(per).map(|r| r * X_RADIX[0] + d + 1));
+                }
+                idx.sort();
+                idx
+            };
+            ctx_pair(&scratch, &targets)
+        }
+        ("line", 4) => {
+            let nseeds: usize = args[2].parse().unwrap_or_else(|_| tool_error(usage));
+            let total = n_line_cases();
+            let cases: Vec<usize> = if let Some(ids) = args[3].strip_prefix("ids:") {
+                parse_ids(ids, total)
+            } else if args[3] == "all" {
+                (1..=total).collect()
+            } else {
+                let count: usize = args[3].parse().unwrap_or_else(|_| tool_error(usage));
+                let per = (count + LINE_FAMS.len() - 1) / LINE_FAMS.len();
+                let mut rng = rand::rngs::StdRng::seed_from_u64(seed() ^ 0x11E5);
+                let mut idx = Vec::new();
+                for f in 0..LINE_FAMS.len() {
+                    let mut rest: Vec<usize> = (0..total / LINE_FAMS.len()).collect();
+                    rest.shuffle(&mut rng);
+                    idx.extend(rest.into_iter().take(per).map(|r| r * LINE_FAMS.len() + f + 1));
+                }
+                idx.sort();
+                idx
+            };
+            ctx_line(nseeds, &cases)
+        }
         ("seed", 4) => {
             let nseeds: usize = args[2].parse().unwrap_or_else(|_| tool_error(usage));
             let total = n_seed_cases();
@@ -2187,6 +2815,17 @@ fn ctx_main(args: &[String]) {
     write_ndjson(&outdir.join(format!("{}-groups.ndjson", kind)), &out.groups);
     write_ndjson(&outdir.join(format!("{}-full.ndjson", kind)), &out.fulls);
     write_ndjson(&outdir.join("progs.ndjson"), &progs);
+    if kind == "pair" {
+        let xprogs: Vec<Value> = (1..=n_x())
+            .map(|i| {
+                let p = xprog(i);
+                let mut v = serde_json::to_value(&p).unwrap();
+                v["source_files"] = json!(render_xprog(&p).files);
+                v
+            })
+            .collect();
+        write_ndjson(&outdir.join("xprogs.ndjson"), &xprogs);
+    }
     let _ = std::fs::remove_dir_all(&scratch);
     println!("{} {}", out.groups.len(), out.trace.len());
 }
@@ -2208,7 +2847,20 @@ fn show_ctx(what: &str, id: usize) {
             println!("// {}", serde_json::to_string(&c).unwrap());
             (render_disk(&c), false)
         }
-        _ => tool_error("showctx prog|seed|disk <id>"),
+        "line" => {
+            let c = line_case(id);
+            println!("// {}", serde_json::to_string(&c).unwrap());
+            (render_line(&c).files, true)
+        }
+        "x" => {
+            let p = xprog(id);
+            println!("// {}", serde_json::to_string(&p).unwrap());
+            for s in 1..=n_pair_shapes() {
+                println!("// scenario {}: {:?}", s, pair_scenario(id, s));
+            }
+            (render_xprog(&p).files, p.std == 0)
+        }
+        _ => tool_error("showctx prog|seed|disk|line|x <id>"),
     };
     for (p, s) in files.iter() {
         println!("// ---- {}\n{}", p, s);
@@ -2239,7 +2891,9 @@ fn main() {
         "sizes" => println!(
             "{}",
             json!({"universe": universe_size(), "progs": n_prog(), "warm": warm_ids().len(), "shapes": n_shapes(),
-                   "long": N_LONG, "disk": N_DISK, "spellings": SPELLINGS.len(), "seed_cases": n_seed_cases()})
+                   "long": N_LONG, "disk": N_DISK, "spellings": SPELLINGS.len(), "seed_cases": n_seed_cases(),
+                   "line_cases": n_line_cases(), "line_fams": LINE_FAMS.len(), "layouts": N_LAYOUTS,
+                   "xprogs": n_x(), "pair_shapes": n_pair_shapes(), "x_neighbours": X_NBR_AXES.len()})
         ),
         "diskshow" if args.len() >= 3 => {
             let r = disk_compile(&args[2], args.len() > 3);
